@@ -4,10 +4,23 @@ wsgi and response code executed is gunicorn's own from /repo."""
 import errno
 
 
+WAIT = "WAIT"
+STALL = "STALL"
+
+
+class Stall(BaseException):
+    """keep-alive timeout fired while waiting for the next request (gevent.Timeout / eventlet.Timeout stand-in)"""
+
+
 class RecSock:
     """Client socket: `script` = list of items consumed by recv():
          bytes -> returned;  int -> raises OSError(errno=int);  (exhausted) -> b"" (EOF)
-       send_fail = index of the sendall()/send() call that raises OSError(send_errno), or None."""
+         WAIT  -> "no data has arrived yet": a blocking socket waits (the item is skipped), a non-blocking one raises
+                  BlockingIOError(EAGAIN)
+         STALL -> the client sends nothing more for longer than the keep-alive timeout: raises Stall (what gevent /
+                  eventlet raise inside timeout_ctx(); see workers._Async.timeout_ctx)
+       send_fail = index of the sendall()/send() call that raises OSError(send_errno), or None.
+       blocking_at_send records the blocking mode in force at every successful send."""
 
     def __init__(self, script=(), send_fail=None, send_errno=errno.EPIPE, name=("127.0.0.1", 8000)):
         self.script = list(script)
@@ -21,6 +34,7 @@ class RecSock:
         self.recv_after_send = 0
         self.name = name
         self.blocking = None
+        self.blocking_at_send = []
         self.hooks = {}          # event name -> callable, used to inject signals at stub boundaries
 
     def _hook(self, ev):
@@ -33,12 +47,19 @@ class RecSock:
         self.events.append("recv")
         if self.out:
             self.recv_after_send += 1
-        if not self.script:
-            return b""
-        item = self.script.pop(0)
-        if isinstance(item, int):
-            raise OSError(item, "recv failed")
-        return item
+        while True:
+            if not self.script:
+                return b""
+            item = self.script.pop(0)
+            if item == WAIT:
+                if self.blocking is False or self.blocking == 0:
+                    raise BlockingIOError(errno.EAGAIN, "Resource temporarily unavailable")
+                continue
+            if item == STALL:
+                raise Stall()
+            if isinstance(item, int):
+                raise OSError(item, "recv failed")
+            return item
 
     def _send(self, d):
         self._hook("send")
@@ -49,6 +70,7 @@ class RecSock:
         if self.send_fail is not None and k >= self.send_fail:
             raise OSError(self.send_errno, "send failed")
         self.out.append(bytes(d))
+        self.blocking_at_send.append(self.blocking)
         self.events.append("send")
 
     def sendall(self, d):
@@ -118,10 +140,12 @@ class CountLog:
 
     def __init__(self):
         self.access_calls = []
+        self.access_reqs = []
         self.errors = 0
 
     def access(self, resp, req, environ, request_time):
         self.access_calls.append((resp.status, resp.sent, getattr(resp, "response_length", None)))
+        self.access_reqs.append(req)
 
     def exception(self, *a, **k):
         self.errors += 1
